@@ -7,7 +7,7 @@ from unittest import mock
 import core
 
 PID = 'C14'
-MODULES = ['FFVerif.Proofs.C14', 'FFVerif.Proofs.C14Balance', 'FFVerif.Proofs.C14Continuous']
+MODULES = ['FFVerif.Proofs.C14', 'FFVerif.Proofs.C14Balance', 'FFVerif.Proofs.C14Continuous', 'FFVerif.Proofs.C14Uniform']
 
 
 def fail(res, clause, api, case, out, sig=None):
@@ -171,7 +171,7 @@ def run(tier, seed):
     res.disagreements_checked = res.traces
     res.trusted += ['hand-written models FF.Sampler.mhStep / auAssemble of the two getSample bodies, tied by trace validation: '
                     'np.random.uniform, the proposal, the target and the domain test are scripted / observed from outside',
-                    'detailed balance is proved for the induced kernels on finite state spaces (C14Balance) and, in integral form over product sets, for the move part of the kernel on any sigma-finite state space (C14Continuous); that the probability of the event u <= ratio under a uniform draw is min(1, ratio) is the step from the rule theorems to the kernel and is not formalised']
+                    'detailed balance is proved for the induced kernels on finite state spaces (C14Balance) and, in integral form over product sets, for the move part of the kernel on any sigma-finite state space (C14Continuous); the step from the rule theorems to the kernel is C14Uniform: the Lebesgue measure of the draws in [0, 1) on which the rule accepts is min(1, ratio), and the kernel entries are proposal x that measure x domain test; that numpy draws uniformly on [0, 1) is assumed']
     return core.finish(res)
 
 
